@@ -137,6 +137,28 @@ class Engine:
 
     # ---------------------------------------------------------------- main flow
     def run(self):
+        try:
+            return self.run0()
+        except Exception as e:
+            if type(e).__name__ != "RunnerCrash":
+                raise
+            # the implementation took the process down on a history: that history, minimised, is the failing input
+            text = e.text
+            if text.count("\n# ") == 0 and text.startswith("# "):
+                hdr, ops = self.ck.split_hist(text)
+                try:
+                    small = self.ck.shrink(hdr, ops, lambda cand: e.crashes(hdr + "\n" + "\n".join(cand) + "\n"))
+                    text = hdr + "\n" + "\n".join(small) + "\n"
+                except Exception as e2:
+                    self.notes.append("shrink failed: %r" % e2)
+            p = self.write_replay("crash", text, extra={"fatal": e.fatal, "log": e.log,
+                                  "note": "running this history against the implementation kills the process (it never does on the unchanged tree)"})
+            print("failing input: the implementation brings the process down on this history: %s" % e.fatal)
+            print("VIOLATION property=%s replay=%s" % (self.pid, p))
+            self.violations = 1
+            return 1
+
+    def run0(self):
         ck = self.ck
         pr = ck.proofs(self.pid, self.tier)
         self.pr = pr
@@ -297,6 +319,12 @@ class Engine:
             print("proofs ok" if pr["ok"] else pr["log"][-1500:])
             return 0 if pr["ok"] else 1
         text = d["header"] + "\n" + "\n".join(d["ops"]) + "\n"
+        if d["kind"] == "crash":
+            try:
+                ck.run_hist([text], self.pid + "-replay", go_bin, want_model=False)
+            except Exception as e:
+                print("reproduced: %s" % e); print("VIOLATION property=%s replay=%s" % (self.pid, path)); return 1
+            print("not reproduced"); return 0
         ck.build_driver()
         go, ml = ck.run_hist([text], self.pid + "-replay", go_bin)
         fails, _ = self.evaluate([text], go, ml=ml)
